@@ -45,7 +45,11 @@ def runner(prop, fam, tier, seed, replay):
             again, _ = lin_phase(prop, tier, seed + 1, work, rounds=3)
             confirmed = {h["cfg"]["impl"] for h in again} & impls
             if not confirmed:
-                raise Infra("non-linearizable concurrent history on %s did not recur in 3 fresh rounds" % sorted(impls))
+                # keep what was seen: a schedule that rare can only be understood from the recorded history
+                keep = os.path.join(vcheck.WORK, "lin-unconfirmed-%d.json" % int(time.time()))
+                json.dump(found, open(keep, "w"), indent=1)
+                raise Infra("non-linearizable concurrent history on %s did not recur in 3 fresh rounds (kept in %s): %s"
+                            % (sorted(impls), keep, json.dumps([dict(name=h["name"], pre=h["cfg"].get("pre"), final=h["final"], ops=h["ops"]) for h in found[:2]])[:1800]))
             known = vcheck.load_known()
             for h in found:
                 if h["cfg"]["impl"] not in confirmed:
